@@ -160,6 +160,25 @@ def run(ctx) -> list[Inst]:
                 and 'Bail' in stmt_text(n.value.func):
             if cfg.dominates(cfg.node_of(n), parse_node):
                 idiom = '2: BailErrorStrategy installed before the start rule'
+        # a hand-written strategy of the package in place of ANTLR's BailErrorStrategy: it has to stop ALL THREE
+        # entry points of the default strategy - recover, recoverInline and sync (sync() deletes a stray token at a
+        # block start / between loop items on its own and only tells a listener)
+        if isinstance(n, ast.Assign) and isinstance(n.targets[0], ast.Attribute) \
+                and n.targets[0].attr in ('_errHandler', 'errHandler') and isinstance(n.targets[0].value, ast.Name) \
+                and n.targets[0].value.id == parser_var and isinstance(n.value, ast.Call) \
+                and isinstance(n.value.func, ast.Name) and n.value.func.id in prog.classes:
+            sc = prog.classes[n.value.func.id]
+            have = {m_ for m_ in ('recover', 'recoverInline', 'sync') if m_ in sc.methods}
+            missing = sorted({'recover', 'recoverInline', 'sync'} - have)
+            parser_listener = any(True for _ in installs_on(pctor, parser_var, passign))
+            if missing and not idiom and not parser_listener:
+                insts.append(Inst(
+                    RULE, f.short, f'(a) error strategy {sc.name} stops every repair of the token stream', 'violation',
+                    msg=(f"{sc.name} overrides {sorted(have)} but not {missing}: the inherited "
+                         f"DefaultErrorStrategy.{missing[0]}() still repairs the input by itself (sync() silently deletes a "
+                         f"stray token and only reports it to a listener - and no raising listener is attached to the "
+                         f"parser any more), so such a file compiles as if the token were not there"),
+                    file=rel, line=n.lineno, props=props))
     # idiom 3
     for g in cfg.nodes:
         if g.kind == 'if':
